@@ -42,21 +42,51 @@ theorem wokenNode_lt (hF : FiniteTable inp N) (pst : RS) (p w : Name) (wd : Node
       List.length_filter_lt_length_iff_exists.mpr ⟨p, hw, by simp⟩
     exact ⟨rfl, linNode_wait_aux w _ wd _ rfl rfl rfl rfl rfl rfl rfl rfl hlt⟩
 
+theorem wokenF_lt (hF : FiniteTable inp N) (s : Sys) (pst : RS) (p w : Name) (wd : Node) (hnc : wakeCrash p wd = false) :
+    calOf N (wokenF inp s pst p wd) < calOf N wd ∨
+    (calOf N (wokenF inp s pst p wd) = calOf N wd ∧ linNode inp w (wokenF inp s pst p wd) + 5 ≤ linNode inp w wd) := by
+  by_cases hc : p ∈ wd.waitRunCalc
+  · left
+    have h0 : calOf N (wokenNode inp pst p wd) < calOf N wd := by
+      rcases wokenNode_lt hF pst p w wd hnc with a | ⟨_, b⟩
+      · exact a
+      · exfalso
+        -- second alternative only when `p` is not an awaited calc_dep
+        have hlt : (wd.waitRunCalc.filter (· ≠ p)).length < wd.waitRunCalc.length :=
+          List.length_filter_lt_length_iff_exists.mpr ⟨p, hc, by simp⟩
+        have g := deliver_grow inp pst p { parentStatus pst p wd with
+          waitRun := wd.waitRun.filter (· ≠ p), waitRunCalc := wd.waitRunCalc.filter (· ≠ p) }
+        have hm := deliver_m2 hF pst p { parentStatus pst p wd with
+          waitRun := wd.waitRun.filter (· ≠ p), waitRunCalc := wd.waitRunCalc.filter (· ≠ p) }
+        have := calOf_lt_aux _ wd _ hm g.pc g.snapCalc g.waitRunCalc hlt
+        have e : wokenNode inp pst p wd = deliver inp pst p { parentStatus pst p wd with
+          waitRun := wd.waitRun.filter (· ≠ p), waitRunCalc := wd.waitRunCalc.filter (· ≠ p) } := by
+          unfold wokenNode; rw [if_pos hc]
+        rename_i a
+        rw [e] at a; omega
+    have g := wokenF_grow inp s pst p wd
+    have hm : m2Of N (wokenF inp s pst p wd) ≤ m2Of N (wokenNode inp pst p wd) := by
+      unfold wokenF; rw [if_pos hc]; exact deliverF_m2 hF _ _ _ _
+    have : calOf N (wokenF inp s pst p wd) ≤ calOf N (wokenNode inp pst p wd) := by
+      unfold calOf; unfold m2Of at hm; rw [g.pc, g.snapCalc, g.waitRunCalc]; omega
+    omega
+  · rw [wokenF_same hc]; exact wokenNode_lt hF pst p w wd hnc
+
 def Frame9 (s' s : Sys) : Prop := s'.toRun = s.toRun ∧ s'.cur = s.cur
 
 theorem wakeOne_gle (hF : FiniteTable inp N) {s : Sys} {pst : RS} {p w : Name} {wd : Node} (hw : s.nodes w = some wd)
     (hN : w < N) (hnc : wakeCrash p wd = false) :
     GLe inp N (wakeOne inp s pst p w wd) s ∧ Frame9 (wakeOne inp s pst p w wd) s := by
-  have hx := wokenNode_lt hF pst p w wd hnc
+  have hx := wokenF_lt hF s pst p w wd hnc
   unfold wakeOne
   split
-  · refine ⟨gle_upd (x := wokenNode inp pst p wd) hw hN (SameM.of_nodes rfl) ?_, rfl, rfl⟩
+  · refine ⟨gle_upd (x := wokenF inp s pst p wd) hw hN (SameM.of_nodes rfl) ?_, rfl, rfl⟩
     rcases hx with a | ⟨a, b⟩
     · exact Or.inl a
     · refine Or.inr ⟨a, ?_⟩
       simp only [List.length_append, List.length_singleton]
       omega
-  · refine ⟨gle_upd (x := wokenNode inp pst p wd) hw hN (SameM.of_nodes rfl) ?_, rfl, rfl⟩
+  · refine ⟨gle_upd (x := wokenF inp s pst p wd) hw hN (SameM.of_nodes rfl) ?_, rfl, rfl⟩
     rcases hx with a | ⟨a, b⟩
     · exact Or.inl a
     · exact Or.inr ⟨a, by simp only [setNode_ready]; omega⟩
@@ -81,7 +111,7 @@ theorem updateWaiting_gle (hF : FiniteTable inp N) {pst : RS} {p : Name} :
         obtain ⟨g1, f1⟩ := wakeOne_gle (inp := inp) (pst := pst) hF hw (hb w wd hw) hnc'
         have hb2 : ∀ k y, (wakeOne inp s pst p w wd).nodes k = some y → k < N := by
           intro k y hk
-          have : (wakeOne inp s pst p w wd).nodes = (setNode s w (wokenNode inp pst p wd)).nodes := by
+          have : (wakeOne inp s pst p w wd).nodes = (setNode s w (wokenF inp s pst p wd)).nodes := by
             unfold wakeOne; split <;> rfl
           rw [this] at hk
           simp only [setNode_nodes] at hk
